@@ -107,6 +107,29 @@ fn main() {
         let n = 20 + r.below(120);
         let base_off: f64 = [0.0, 1e-9, 999e-6, 1.001e-3, 1.0, 10.0, 1e9, -1e9, -10.0, -1e-3][r.below(10) as usize];
         let mut panicked = false;
+        // the filter update timer can fire before the first measurement (a stale timer hitting a fresh filter): nothing may be commanded
+        for _ in 0..r.below(3) {
+            let before = clk.log.len();
+            let res = catch_unwind(AssertUnwindSafe(|| {
+                if let Some(f) = kf.as_mut() { let _ = f.update(&mut clk); }
+                if let Some(f) = bf.as_mut() { let _ = f.update(&mut clk); }
+            }));
+            emit(json!({"e": "upd"})); events += 1;
+            for (c, val) in clk.log[before..].iter() {
+                cmds += 1; events += 1;
+                if *c == 'f' { emit(json!({"e": "freq", "fin": val.is_finite(), "mag": cap((val.abs() * 1000.0 - 1e-6).ceil().max(0.0))})); } else { emit(json!({"e": "step", "fin": val.is_finite(), "mag": cap((val.abs() * 1e9).floor())})); }
+            }
+            if res.is_err() || clk.log.len() > before {
+                let key = "C13/idle-command";
+                *counts.entry(key.into()).or_default() += 1;
+                if viol.iter().filter(|v| v["key"] == key).count() < 2 {
+                    let path = format!("{}/servo-{}.json", dir, viol.len());
+                    std::fs::create_dir_all(&dir).ok();
+                    std::fs::write(&path, serde_json::to_string_pretty(&json!({"kind": "servo", "key": key, "detail": "update() of a filter that has not seen a measurement commanded the clock", "filter": if basic { "basic" } else { "kalman" }, "commands": format!("{:?}", &clk.log[before..])})).unwrap()).ok();
+                    viol.push(json!({"key": key, "detail": format!("Filter::update on a fresh {} filter commanded the clock: {:?}", if basic { "basic" } else { "kalman" }, &clk.log[before..]), "replay": path}));
+                }
+            }
+        }
         for k in 0..n {
             // event time
             let dt: i128 = match family {
@@ -157,6 +180,28 @@ fn main() {
                 events += 1;
                 bad = Some(("C13/panic".into(), "the servo panicked (non-finite state)".into()));
                 panicked = true;
+            }
+            // the filter update timer between measurements: its commands obey the same guards
+            if !panicked && r.below(4) == 0 {
+                let before = clk.log.len();
+                let resu = catch_unwind(AssertUnwindSafe(|| {
+                    if let Some(f) = kf.as_mut() { let _ = f.update(&mut clk); }
+                    if let Some(f) = bf.as_mut() { let _ = f.update(&mut clk); }
+                }));
+                emit(json!({"e": "upd"})); events += 1;
+                for (c, val) in clk.log[before..].iter() {
+                    cmds += 1; events += 1;
+                    let fin = val.is_finite();
+                    if *c == 'f' {
+                        emit(json!({"e": "freq", "fin": fin, "mag": cap((val.abs() * 1000.0 - 1e-6).ceil().max(0.0))}));
+                        if !fin { bad = Some(("C13/nonfinite".into(), format!("update: set_frequency({})", val))); }
+                        else if !basic && val.abs() > maxf * (1.0 + 1e-12) { bad = Some(("C13/freq-bound".into(), format!("update: set_frequency({}) exceeds max_freq_offset {}", val, maxf))); }
+                    } else {
+                        emit(json!({"e": "step", "fin": fin, "mag": cap((val.abs() * 1e9).floor())}));
+                        if !fin { bad = Some(("C13/nonfinite".into(), format!("update: step_clock({})", val))); }
+                    }
+                }
+                if resu.is_err() { emit(json!({"e": "panic"})); events += 1; bad = Some(("C13/panic".into(), "update() panicked".into())); panicked = true; }
             }
             if let Some((key, what)) = bad {
                 // signature of the recorded finding: zero-variance / equal-event-time sample sets
